@@ -6,7 +6,7 @@ Grammar (what a .sdsstub file may contain):
 
   file        := { TODO } [ DOC ] [ '@PythonModule' '(' STRING ')' ] 'package' qname { import } { decl }
   import      := 'from' qname 'import' ID
-  decl        := { TODO } [ DOC ] { annotation } ( class | fun | enum )
+  decl        := { TODO } [ DOC ] { TODO } { annotation } ( class | fun | enum )
   class       := 'class' ID [ '<' tparam { ',' tparam } '>' ] [ '(' [ params ] ')' ] [ 'sub' type { ',' type } ]
                  [ '{' { member } '}' ]
   member      := { TODO } [ DOC ] { annotation } ( class | fun | attr )
@@ -60,7 +60,7 @@ class Tok:
 
 _ID_RE = re.compile(r"[A-Za-z_][A-Za-z0-9_]*")
 _NUM_RE = re.compile(r"-?(?:\d+\.\d+|\d+\.|\.\d+|\d+)(?:[eE][+-]?\d+)?|-?inf|nan")
-_STR_RE = re.compile(r'"(?:\\.|[^"\\\n])*"')
+_STR_RE = re.compile(r'"(?:\\.|[^"\\])*"', re.S)
 _BQ_RE = re.compile(r"`([A-Za-z_][A-Za-z0-9_]*)`")
 
 
@@ -400,10 +400,9 @@ class _P:
         pos = self.t.pos
         todos = self.todos()
         doc = self.doc()
-        todos2 = self.todos()  # the generator never emits these after the comment; kept separate and rejected
-        if todos2:
-            raise self.err("TODO lines between documentation comment and declaration")
+        todos += self.todos()  # comments may also sit between the documentation comment and the declaration
         annots, pyname = self.annotations()
+        todos += self.todos()  # ... and between the annotations and the declaration keyword
         static = False
         if self.is_kw("static"):
             static = True
@@ -642,3 +641,12 @@ def try_parse(text: str):
         return parse(text), None
     except StubSyntaxError as e:
         return None, str(e)
+
+
+def parse_decl(text: str, top: bool = True) -> Decl:
+    """Parse a single declaration (e.g. the output of one _create_function_string call)."""
+    p = _P(text)
+    d = p.decl(top=top)
+    if p.t.kind != "EOF":
+        raise p.err("trailing text after declaration")
+    return d
